@@ -301,6 +301,7 @@ def run_base_capa(
     # Used to get the final set of anomalies after the loop.
     opt_anomaly_starts = np.repeat(np.nan, n)
     starts = np.array([], dtype=int)
+    pending_pruned_starts = []
 
     for t in range(n):
         t_array = np.array([t])
@@ -341,11 +342,15 @@ def run_base_capa(
             continue
 
         # Pruning the admissible starts
+        # A start whose saving is too low for anomalies ending at t + 1 can only be
+        # discarded for anomalies ending at t + 1 + min_segment_length or later,
+        # because an anomaly starting at t + 1 is at least min_segment_length long.
         penalty_sum = collective_alpha + collective_betas.sum()
         saving_too_low = candidate_savings + penalty_sum < opt_savings[t + 1]
-        too_long_segment = starts < t - max_segment_length + 2
-        prune = saving_too_low | too_long_segment
-        starts = starts[~prune]
+        pending_pruned_starts.append(starts[saving_too_low])
+        if len(pending_pruned_starts) >= min_segment_length:
+            starts = np.setdiff1d(starts, pending_pruned_starts.pop(0))
+        starts = starts[starts >= t - max_segment_length + 2]
 
     collective_anomalies, point_anomalies = get_anomalies(opt_anomaly_starts)
     return opt_savings[1:], collective_anomalies, point_anomalies
